@@ -462,6 +462,8 @@ pub struct World {
     /// stub of the autoalloc service: next queue id (taken over from the restore) and live queues
     pub queue_next_id: u32,
     pub live_queues: Vec<u32>,
+    /// live jobs / workers of the last prune request (as computed by the real server)
+    pub last_prune_live: RefCell<Option<(tako::Set<tako::JobId>, tako::Set<tako::WorkerId>)>>,
 }
 
 #[derive(Debug, Clone)]
@@ -566,6 +568,7 @@ impl World {
             journal_flush_period: Duration::from_secs(30),
             queue_next_id: 1,
             live_queues: Vec::new(),
+            last_prune_live: RefCell::new(None),
         };
         tako::verif::set_sim_clock(true);
         world
@@ -1662,6 +1665,14 @@ impl World {
         let prune = matches!(&m, EventStreamMessage::PruneJournal { .. });
         if let EventStreamMessage::Event(e) = &m {
             j.shadow_store(e);
+        }
+        if let EventStreamMessage::PruneJournal {
+            live_jobs,
+            live_workers,
+            ..
+        } = &m
+        {
+            *self.last_prune_live.borrow_mut() = Some((live_jobs.clone(), live_workers.clone()));
         }
         if prune {
             // the journal as the server knows it at this moment (the real file lags behind by
